@@ -191,6 +191,13 @@ def generate(rng, tier):
         case["scalar"] = {"val": float(rng.choice([4, 3, 0.5, -2, 7])), "unit": rng.choice(["s", "m", "", "g"]), "kind": rng.choice(["arr", "arr", "vec"]),
                           "route": rng.choice(["copy", "copy.copy", "deepcopy", "dg-deepcopy", "ds-deepcopy"]), "side": rng.choice(["copy", "orig"]),
                           "sym": rng.choice("+-*/"), "num": float(rng.choice([2, 4, 0.5, 3]))}
+    if rng.random() < 0.12:
+        # dtypes beyond float and signed integer (unsigned counters, complex amplitudes), operand of the same dtype
+        dt = rng.choice(["u1", "u2", "u4", "u8", "c8", "c16"])
+        case["narrow"] = {"dtype": dt, "sym": rng.choice("+-*" if dt[0] == "u" else "+-*/"), "unit": rng.choice(["m", "s", "g", "cm"]), "yunit": rng.choice(["s", "m", "g"]),
+                          "vals": [rng.randrange(3, 10) for _ in range(3)], "yvals": [rng.randrange(1, 3) for _ in range(3)], "vec": rng.random() < 0.3}
+        if {case["narrow"]["unit"], case["narrow"]["yunit"]} == {"cm", "m"}:
+            case["narrow"]["yunit"] = "s"  # (no conversion factors here: they are not representable in the integer dtypes)
     if rng.random() < 0.02:
         # sizes at which libraries switch code paths (chunking, copies of non-contiguous buffers)
         case["big"] = {"n": rng.choice([70000, 131073, 200000]), "view": rng.choice(["strided", "strided", "reversed", "plain", "column", "window", "window"]),
@@ -350,6 +357,49 @@ def scalar_scenario(sc, osy, V, stats):
         V(0, op, "exception", {"error": f"{type(e).__name__}: {e}"[:300]})
 
 
+def narrow_scenario(nc, osy, V, stats):
+    """x op= y on an Array (or the components of a Vector) of unsigned-integer or complex dtype, with an operand of the same
+    dtype: same object, value and unit of x op y (unit from plain unit arithmetic), seen through both groups holding x, y untouched."""
+    op = {"op": "narrow", "narrow": nc}
+    stats.inc("probe.inplace_on_unsigned_or_complex_dtype=" + nc["dtype"])
+    try:
+        dt = np.dtype(nc["dtype"])
+        xv = [np.array(nc["vals"], dtype=dt), np.array([v + 1 for v in nc["vals"]], dtype=dt)]
+        yv = np.array(nc["yvals"], dtype=dt)
+        ux, uy = nc["unit"], (nc["unit"] if nc["sym"] in "+-" else nc["yunit"])
+        if nc["vec"]:
+            x = osy.Vector(xv[0].copy(), xv[1].copy(), unit=ux)
+        else:
+            x = osy.Array(values=xv[0].copy(), unit=ux)
+        y = osy.Array(values=yv.copy(), unit=uy)
+        g1, g2 = osy.Datagroup(), osy.Datagroup()
+        g1["a"] = x
+        g2["b"] = x
+        r = OPS[nc["sym"]](x, y)
+        if not nc["vec"] and r is not x:
+            V(0, op, "identity", {"inplace_returned_new_array": True})
+            return
+        fn = {"+": np.add, "-": np.subtract, "*": np.multiply, "/": np.divide}[nc["sym"]]
+        q = {"+": lambda a, b: a, "-": lambda a, b: a, "*": lambda a, b: a * b, "/": lambda a, b: a / b}[nc["sym"]](1.0 * osy.units(ux), 1.0 * osy.units(uy))
+        want_unit = q.units
+        for holder, key in ((g1, "a"), (g2, "b")):
+            leaves = core.vcomps(holder[key]) if nc["vec"] else [holder[key]]
+            for a, base in zip(leaves, xv):
+                want = fn(base, yv).astype(dt)
+                if not np.array_equal(np.asarray(a.values), want):
+                    V(0, op, "inplace-value", {"got": np.asarray(a.values).astype(complex).real.tolist(), "want": want.astype(complex).real.tolist(), "seen_through": key})
+                    return
+                if a.unit != want_unit:
+                    V(0, op, "inplace-unit", {"unit": str(a.unit), "want": str(want_unit), "dtype": nc["dtype"], "seen_through": key})
+                    return
+        if not np.array_equal(np.asarray(y.values), yv) or y.unit != osy.units(uy):
+            V(0, op, "rhs-modified", {"y": np.asarray(y.values).astype(complex).real.tolist()})
+    except HarnessError:
+        raise
+    except Exception as e:
+        V(0, op, "exception", {"error": f"{type(e).__name__}: {e}"[:300]})
+
+
 def execute(case, stats):
     import osyris as osy
     from pint.errors import DimensionalityError
@@ -372,6 +422,8 @@ def execute(case, stats):
 
     if case.get("scalar"):
         scalar_scenario(case["scalar"], osy, V, stats)
+    if case.get("narrow") and not viol:
+        narrow_scenario(case["narrow"], osy, V, stats)
         if viol:
             res["signature"] = core.digest(case)[:20]
             return res
@@ -884,7 +936,7 @@ def execute(case, stats):
 
 
 def measure(case):
-    return (len(case["ops"]), int(bool(case.get("scalar"))) + int(bool(case.get("big"))), case["n"], len(core.dumps(case["ops"])))
+    return (len(case["ops"]), int(bool(case.get("scalar"))) + int(bool(case.get("big"))) + int(bool(case.get("narrow"))), case["n"], len(core.dumps(case["ops"])))
 
 
 def reductions(case, viol):
@@ -898,6 +950,13 @@ def reductions(case, viol):
         del c["big"]
         yield c
         yield dict(case, ops=[])
+    if case.get("narrow"):
+        c = dict(case)
+        del c["narrow"]
+        yield c
+        yield dict(case, ops=[])
+        if case["narrow"]["vec"]:
+            yield dict(case, narrow=dict(case["narrow"], vec=False))
     yield from list_reductions(case, "ops")
     if case["n"] > 2:
         yield dict(case, n=2)
